@@ -271,7 +271,8 @@ class AckOracle:
             return None if out == "ok" else "open failed: %s" % out
         if not self.open:
             return None
-        acked = out.startswith("ok")
+        # an append is acknowledged when it returns success OR when it signalled the flush callback (what openraft acts on)
+        acked = out.startswith("ok") or "flushed=1" in out
         if t[0] == "fault":
             self.armed = True
             return None
@@ -301,6 +302,9 @@ class AckOracle:
             for e in t[1:]:
                 i, tm, n = (int(x) for x in e.split(":"))
                 self.log[i] = (tm, n)
+            if out.startswith("err"):
+                return ("append signalled the flush callback (the acknowledgement openraft acts on: the leader counts this node towards the quorum) "
+                        "although a record write failed - acknowledged entries are not in the log: %s" % out)
             if out != "ok flushed=1":
                 return "append acknowledged without signalling the flush callback exactly once: %s" % out
         elif t[0] == "truncate":
